@@ -24,7 +24,7 @@ def cases(draw, tier):
     t = draw(st.sampled_from(gen.TYPES))
     nmax = 3 if tier == "quick" else 4
     sc = draw(gen.state_case(types=[t], n=(1, nmax), nh=(1, 3), na=(1, 3), scales=[0.05, 0.5, 2.0, 2.0, 8.0], bound=60.0))
-    return {"state": sc, "batch": draw(gen.index_list(sc["n"], 3, 7)), "fmt": draw(st.integers(0, 2))}
+    return {"state": sc, "batch": draw(gen.index_list(sc["n"], 3, 7)) if draw(st.integers(0, 5)) else draw(gen.index_list(sc["n"], 60, 90)), "fmt": draw(st.integers(0, 2))}
 
 
 def fmt_region(A, how):
@@ -71,6 +71,11 @@ def check(case):
                     require(torch.equal(two, keep), "mutated", "SWAP.apply modified the batch")
                     require(isinstance(out, torch.Tensor) and tuple(out.shape) == (2,) and out.dtype.is_floating_point, "shape", f"SWAP.apply on a 2-row batch returned shape {tuple(out.shape)}")
                     Fm[i, j] = float(out[0])
+                    if sc["type"] != "density" and (i + 2 * j + ai) % 5 == 0:
+                        # wavefunction states accept integer / single-precision sample tensors: the estimator's value must not depend on it
+                        for dt in (torch.int64, torch.float32):
+                            o2 = obs.apply(state, two.to(dt))
+                            require(abs(float(o2[0]) - float(out[0])) <= 1e-6 * (1 + abs(float(out[0]))), "sample-dtype", f"SWAP value changes when the same states are given as a {dt} tensor: {float(o2[0])} vs {float(out[0])}")
             if F is None:
                 F = Fm
             else:
